@@ -41,7 +41,7 @@ func mkChooser(s Sched) vrt.Chooser {
 }
 
 // MaxStepsDefault bounds an episode; reaching it is "inconclusive" (except the C03 livelock rule).
-var MaxStepsDefault = 400_000
+var MaxStepsDefault = 3_000_000
 
 // RunCase executes a case on the coop runtime. It is a pure function of the case.
 func RunCase(c *Case) *Result { return runCaseWith(c, nil) }
